@@ -31,7 +31,7 @@ def pce_small_pel(eid):
 
 def classify_junk(model, files, plugins):
     """(junk every mode rejects, junk only the count mode accepts - its two headers are intact)"""
-    j_all, j_la = [], []
+    j_all, j_la, j_a = [], [], []
     for name, data, meta in files:
         if meta.get("kind") == "unreadable":
             j_all.append((name, data, meta))
@@ -44,12 +44,17 @@ def classify_junk(model, files, plugins):
             j_all.append((name, data, meta))
         elif acc == [True, False, False]:
             j_la.append((name, data, meta))
-    return j_all, j_la
+        elif acc == [True, True, False]:
+            j_a.append((name, data, meta))          # damaged behind its primary SRC: only the full decode rejects it
+    return j_all, j_la, j_a
 
 
 def run_modes(d, modes, outdir):
+    import fixtures
     res = {}
     for key, argv in modes:
+        # every invocation of the tool is a process of its own: it starts with empty parser caches
+        fixtures.reset_caches()
         a = ["-p", d] + argv
         if "-j" in argv:
             od = os.path.join(outdir, "out_" + str(len(res)))
@@ -63,7 +68,8 @@ def run_modes(d, modes, outdir):
 
 
 def check_pair(run, model, rng, good, junk, plugins, bits, i):
-        junk, junk_la = classify_junk(model, junk, plugins)
+        junk, junk_la, junk_a = classify_junk(model, junk, plugins)
+        FULL = ("-a", "-ax", "-j")                  # the modes that decode every section
         sev_args = cli_runner.sel_argv(bits, ())
         plid = "%08X" % (good[0][2]["eid"] if good and rng.random() < 0.3 else rng.randrange(1 << 32))
         if good:
@@ -95,8 +101,12 @@ def check_pair(run, model, rng, good, junk, plugins, bits, i):
                             real[key + " (python -O)"] = cli_runner.run_subproc(["-p", d2] + argv, optimize=True)
             with dirgen.TempDir(good + junk, subdirs=subdirs) as d3:
                 r2.update(run_modes(d3, [m for m in modes if m[0] == "-n"], tmp + "/c"))
+            if junk_a:
+                # files that only the full decode rejects join the directory of the modes that decode every section
+                with dirgen.TempDir(good + junk + junk_la + junk_a, subdirs=subdirs) as d4:
+                    r2.update(run_modes(d4, [m for m in modes if m[0] in FULL], tmp + "/d"))
             junk_la_only = list(junk_la)
-            junk = junk + junk_la
+            junk = junk + junk_la + junk_a
         finally:
             shutil.rmtree(tmp, ignore_errors=True)
         run.evaluations += len(modes)
@@ -143,7 +153,8 @@ def check_pair(run, model, rng, good, junk, plugins, bits, i):
         for mode, key in ((0, "-n"), (1, "-l"), (2, "-a")):
             if key not in r2 or r2[key][0] != 0:
                 continue
-            files_m = good + (junk if key != "-n" else [f for f in junk if f not in junk_la_only])
+            # (each mode saw the junk its own decoder rejects: see the directories above)
+            files_m = good + [f for f in junk if (f not in junk_a or key in FULL) and (f not in junk_la_only or key != "-n")]
             try:
                 mp = pelgen.to_py(dirgen.model_cli_o(model, mode, files_m, plugins=plugins, bits=bits))
                 out2 = json.loads(r2[key][1], object_pairs_hook=OrderedDict)
@@ -214,6 +225,20 @@ def run(run, model, proof):
             j = dirgen.set_ids(short[:len(short) - rng.randrange(1, 12)], eid=0x6800 + i)
             a, b = ("m_plug_%d" % i, "a_plug_%d" % i) if rng.random() < 0.7 else ("a_plug_%d" % i, "m_plug_%d" % i)
             good.append((a, g, dict(kind="pel", eid=0x6000 + i)))
+            junk.append((b, j, dict(kind="junk")))
+        if rng.random() < 0.35:
+            # the same with SRC parsers: a good BMC PEL whose reference code reaches a shipped SRC parser through the osrc dispatcher,
+            # and an undecodable file (truncated behind its SRC) whose reference code sends the same component to a module that does
+            # not exist: what the dispatcher remembers of the junk must not change what the good one shows
+            from props import c18
+            comp = "E5"            # the component with a shipped SRC parser (srcparsers.oe500)
+            gbody, _w = c18.src_body(rng, "BD8D%s10" % comp, proc=None, wcount=9)
+            jbody, _w = c18.src_body(rng, rng.choice(["BC8A%s10", "BC20%s00", "BC8A%s10", "BC00%s01", "BD8D%s10"]) % comp, proc=None, wcount=9)
+            g = dirgen.set_ids(c04.mini_pel(b"O", [(b"PS", 1, 1, 0x2000, gbody)]), eid=0x6400 + i)
+            short = c04.mini_pel(b"O", [(b"PS", 1, 1, 0x2000, jbody), (b"UD", 1, 1, 0x2000, b"{}" * 8)])
+            j = dirgen.set_ids(short[:len(short) - rng.randrange(1, 12)], eid=0x6C00 + i)
+            a, b = ("m_src_%d" % i, "a_src_%d" % i) if rng.random() < 0.6 else ("a_src_%d" % i, "m_src_%d" % i)
+            good.append((a, g, dict(kind="pel", eid=0x6400 + i)))
             junk.append((b, j, dict(kind="junk")))
         if rng.random() < 0.3:
             junk.append((rng.choice(["0_gone_%d", "m_gone_%d.pel", "zz_gone_%d"]) % i, b"", dict(kind="unreadable", how=rng.choice(["dangling", "loop", "socket"]))))
